@@ -35,7 +35,7 @@ CHECKS["C02"] = dict(
     level_text="Histories of <=40 connect/subscribe/unsubscribe/publish/link/reconnect requests from 1-4 clients (valid and refused keys, malformed "
                "topics, me=0, QoS 0/1, link shortcuts with auto-subscribe) run through the real accept path; after every request every client's "
                "received packets are compared with the model (exact recipient set, one copy, topic without key, payload unchanged, error reply with "
-               "request id and unchanged subscription count for refused requests, empty index after all clients closed). A second leg runs single-connection sessions over a scripted broker-side socket on which exactly one write fails (transient failure): the connection either ends or is still sent every other packet it is owed.",
+               "request id and unchanged subscription count for refused requests, empty index after all clients closed). A second leg runs single-connection sessions over a scripted broker-side socket on which exactly one write fails (transient failure): the connection either ends or is still sent every other packet it is owed. Sessions also hold $share group filters (oracle: one member per group, never more share-only receivers than groups) and re-issue earlier link requests.",
     level_note="Trusted: paho packets codec on the client side, net.Pipe transport, protocol barriers (PUBACK/PINGRESP/close signal), reference matcher. "
                "Storage and cluster disabled/quiescent; emitter matcher mode only.",
     rule="rapid-generated histories; non-trivial = history in which a publish is delivered to a connection holding >=2 filters after >=1 effective "
@@ -51,7 +51,7 @@ CHECKS["C16"] = dict(
               "native go fuzzing of the decoder against paho in the thorough tier",
     level_text="For generated packet values of all 14 types (flag combinations, QoS incl. will QoS, message ids, string/payload lengths aimed at the "
                "remaining-length boundaries 0/127/128/16383/16384/..64KiB) emitter's bytes are decoded by paho, paho's bytes by emitter, emitter's by "
-               "emitter; all field maps must equal the description, both byte strings must be identical and the remaining length must match an independent encoder.",
+               "emitter; all field maps must equal the description, both byte strings must be identical and the remaining length must match an independent encoder. After each packet its same-size variants (other flags, ids, contents) and the packet again are encoded: bytes must not depend on what was encoded before; the domain reaches the codec's size limit (bodies up to 65 536 bytes); the concurrent leg also lets all goroutines encode into one atomic-write stream that must decode into exactly the encoded packets.",
     level_note="Trusted: paho.mqtt.golang v1.5.0 packets as the independent MQTT 3.1.1 implementation (its known leniencies are filtered: only well-formed "
                "packets, topic filters >=1 char), the neutral description and field maps in the harness.",
     rule="rapid-generated packet descriptions; non-trivial = remaining length needs >=2 bytes or any non-default flag/QoS/return code; distinct = distinct description.",
@@ -69,7 +69,7 @@ CHECKS["C20"] = dict(
     level_text="Generated licenses of all three versions (edge-valued contract/signature/index) must parse back to the same accessors and an equivalent "
                "cipher; generated 24-byte keys must encrypt to 32 URL-safe characters, decrypt back, and distinct keys must give distinct strings (pairwise "
                "and in a 20k-100k sample); strings that are not 32 valid characters must be rejected with an error; license.Parse on generated hostile "
-               "strings must return a license or an error - aborts are observed in a child worker.",
+               "strings must return a license or an error - aborts are observed in a child worker. Licenses made by the repository's own generators (NewV1/2/3, license.New) are round-tripped and their generated master key must be a valid master key of the license.",
     level_note="Trusted: deterministic license construction from exported struct fields, the child-worker protocol (unacknowledged input = culprit), "
                "RLIMIT_AS 3 GB for the child. 2^-32-probability collisions are not reachable by sampling.",
     rule="rapid-generated license field tuples / keys / strings; non-trivial = license with non-zero contract or signature, key with non-zero salt, "
@@ -111,7 +111,7 @@ CHECKS["C13"] = dict(
                "changed the receiver, be nil exactly when nothing changed, and leave the receiver at the pointwise maximum (volatile and durable receivers, "
                "ops/snapshots/relayed deltas, with and without encode hops). (b) 1-6 payloads (ops, deltas, live full states) are queued on 1-3 links of the "
                "transcribed sender, one object possibly on several links; the decoded join of what is put on the wire must dominate the join of what was queued. "
-               "Non-coalescing schedules are asserted strictly; failures with >=1 pending.Merge(new) call match the listed finding. (c) merges of the same payloads arriving over several links at once, racing local operations: every (entry, time) is handed on by at most one merge, and by exactly one if only gossip carried it.",
+               "Non-coalescing schedules are asserted strictly; failures with >=1 pending.Merge(new) call match the listed finding. (c) merges of the same payloads arriving over several links at once, racing local operations: every (entry, time) is handed on by at most one merge, and by exactly one if only gossip carried it. Payloads may carry a subset of an unknown type (never news); one plain leg merges a 150 000-subscription payload (one transport frame, > 10 MiB decoded) completely.",
     level_note="Trusted: the lattice model, the 40-line transcription of mesh gossipSender.Send/Broadcast/pick (vkit/gsender.go). For (b) the implementation "
                "is known to violate the property whenever payloads coalesce (listed finding), so (b) separates 'fails as listed' from 'fails otherwise' only.",
     rule="(a) non-trivial = history containing a merge whose payload entry has one changed and one unchanged time field; (b) non-trivial = >=2 payloads queued. "
@@ -130,7 +130,7 @@ CHECKS["C17"] = dict(
                "consumer must read exactly the stream and the socket's final error; (b) generated Write/Flush/wait sequences at flush rates 1..1000: the socket "
                "must always hold a prefix of, and finally exactly, the bytes written (direct, queued and timer-flushed paths observed); (c) generated WebSocket "
                "message sequences (binary/text/empty, control frames interleaved, fragment sizes 1..4096, EOF with or after the data) through the adapter, one "
-               "binary message per write; (d) the same through a real gorilla client with small write buffers (real continuation frames) against TryUpgrade.",
+               "binary message per write; (d) the same through a real gorilla client with small write buffers (real continuation frames) against TryUpgrade. (e) the real multiplexing listener on loopback TCP in the broker's configuration: whatever the opening bytes and TCP chunking, the sub-listener reads the client's bytes and the client the server's; clients may stall past a short sniffing deadline after fewer than 8 bytes; WebSocket messages up to 140 000 bytes.",
     level_note="Trusted: the fake socket / frame source (40 lines each), gorilla/websocket as the client in (d). More than 5 consecutive empty WebSocket messages are "
                "not generated (bufio gives up after 100 empty reads: a documented reader limit).",
     rule="rapid-generated cases; non-trivial = (a) >=1 matcher peeked and the consumer's first read is either small (<8) or spans the replay boundary, (b) >=1 queued "
@@ -150,7 +150,7 @@ CHECKS["C06"] = dict(
     level_text="Stores of 0-40 messages (two contracts whose key prefixes collide by construction plus a third, channels of depth 1-4, a 6-second band so many "
                "messages share a second, expired and live TTLs, payloads up to 60 KiB against the 64 KiB cap, retained TTL) and 1-6 queries each (literal first "
                "level, '+' elsewhere, windows cutting the band, limits 0..2^62, continuation from the oldest id to exhaustion or from an arbitrary returned id): "
-               "the returned multiset, its order, the fields of every message, page disjointness and the union of pages are compared with the reference. Further legs ask through the other observation point, emitter/history/ requests to a broker with an in-memory and a disk store (options last/from/until, paging with startFromID, refusals), feed undecodable replies of other cluster members into the two-node survey, and continue with ids obtained from a wider query than the window in force.",
+               "the returned multiset, its order, the fields of every message, page disjointness and the union of pages are compared with the reference. Further legs ask through the other observation point, emitter/history/ requests to a broker with an in-memory and a disk store (options last/from/until, paging with startFromID, refusals), feed undecodable replies of other cluster members into the two-node survey, and continue with ids obtained from a wider query than the window in force. Message bands may lie 10 000 s or 35 days in the past with ttls that keep them alive (older than the retention period).",
     level_note="Trusted: the 40-line reference (key order = time desc then creation order desc, cumulative payload+id+channel <= 65536), message.New/ID.SetTime for "
                "construction, wall clock only with margins (messages are either expired by >=500 s or live for >=1 h). The main legs use a nil surveyor; the two-node leg plays the cluster surveyor itself (request handed to the peer store's OnSurvey). "
                "Negative limits are out of the property's domain (C09 covers them).",
@@ -173,7 +173,7 @@ CHECKS["C03"] = dict(
                "(2) generated tuples (license version 1-3, own/second/unknown contract, signature, master id, permission mask, needed permission, expiry, ban "
                "state, undecryptable key strings, target, request) through Service.Authorize: allowed iff every conjunct holds, each conjunct is seen deciding; "
                "(3) for all 128 permission masks x 3 license versions the operations subscribe/publish/history/presence/key-extension through a connection "
-               "need exactly read/write/load/presence/extend, and a second contract's key never reaches the first contract's subscribers. Each decision is asked twice with disturbances in between (the key is extended for a private link, a powerful unrelated key is authorized): the answer must not change; contracts served by an HTTP provider whose first lookup fails must be accepted from the next lookup on; a concurrent leg has 8 goroutines authorizing their own keys at once against the same reference.",
+               "need exactly read/write/load/presence/extend, and a second contract's key never reaches the first contract's subscribers. Each decision is asked twice with disturbances in between (the key is extended for a private link, a powerful unrelated key is authorized): the answer must not change; contracts served by an HTTP provider whose first lookup fails must be accepted from the next lookup on; a concurrent leg has 8 goroutines authorizing their own keys at once against the same reference. Malformed spellings include white-space padded keys; a refresh leg revokes contracts at an HTTP provider (one contract disappearing or failing) and requires the revocations to take effect after refresh rounds.",
     level_note="Trusted: the 25-line reference 'covers' (requests ending in '#' against exact targets are unspecified and excluded, counted), keys built field by field "
                "and encrypted with the license cipher, a delegating contract provider over emitter's own SingleContractProviders. The listed finding (targets "
                "whose last level is '+') is excluded from the under-permission direction only; over-permission is asserted everywhere.",
@@ -215,7 +215,7 @@ CHECKS["C12"] = dict(
     level_text="Issued keys over (license version 1-3, permission mask, target shape, expiry none/future/past, salt) x modifications: 1-3 bit flips of the 24 raw "
                "bytes (all 192 single flips enumerated for 4 keys per version), XOR masks on 1-4 bytes, base64 character substitutions, bytes outside the alphabet, "
                "3-byte and 8-byte block swaps/duplications, truncation/extension, 8-byte block splices from a second issued key. granted(k') must be a subset of "
-               "granted(k) (of the union for splices) on 12 channels x 6 permissions + minting. A concurrency leg presents modified keys while other clients are authorized with powerful keys at the same moment: the modified key must grant exactly what it grants when presented alone.",
+               "granted(k) (of the union for splices) on 12 channels x 6 permissions + minting. A concurrency leg presents modified keys while other clients are authorized with powerful keys at the same moment: the modified key must grant exactly what it grants when presented alone. In a fifth of the cases the issued key is banned before the modified string is presented (a respelling that still works is then more powerful than the original); the salts of 1 200 keys issued in a row must be (nearly) all distinct.",
     level_note="Trusted: keys built field by field, the probe set. A 2^-32 forgery cannot be found by sampling; this check finds structural malleability only. "
                "Listed findings: v2/v3 ciphers are unauthenticated stream ciphers (bit flips beyond the salt bytes change permissions/target/expiry at will).",
     rule="rapid-generated (key, modification) pairs + enumerated single-bit flips; non-trivial = the modified string is still 32 valid characters; distinct = distinct case value.",
@@ -234,7 +234,7 @@ CHECKS["C19"] = dict(
                "created later sort bytewise before earlier ones within and across seconds; 8 goroutines x 10^4 ids are pairwise distinct; (c) Frame.Split for all "
                "bounds: head++tail = frame, head below the bound and maximal; iterated as the peer does it re-assembles the frame; (d) 1-8 goroutines hand "
                "200-3000 numbered messages each to a Peer whose 5 ms ticker is the only flusher: the transport receives each exactly once, per-sender order kept, "
-               "nothing once the peer is inactive. Decoded frames / messages and encoded bytes are re-checked after other data went through the codec (results may not alias pooled buffers), and a concurrent leg runs the codec from 8 goroutines.",
+               "nothing once the peer is inactive. Decoded frames / messages and encoded bytes are re-checked after other data went through the codec (results may not alias pooled buffers), and a concurrent leg runs the codec from 8 goroutines. The split leg includes near-64-KiB messages against bounds from 64 KiB to the real 10 MiB peer bound.",
     level_note="Trusted: the recording mesh.Gossip stub, VerifNewPeer (= newPeer on a stub swarm). Leg (d) samples Go-scheduler interleavings; no shrinking. Single "
                "messages at or above the split bound cannot occur in the broker (64 KiB packet cap vs 10 MiB bound) and are excluded (counted).",
     rule="rapid cases + stress rounds; non-trivial = frame of >=2 messages or a large payload/ttl, >=2 time steps, a frame that splits into >=2 chunks, a peer round with "
@@ -256,7 +256,7 @@ CHECKS["C07"] = dict(
                "subscribes and re-subscribes with keys with/without load permission, last absent/0/1/2/3/5/10^6/2^40, windows around now / far past / far future / "
                "one-sided / out-of-range. Checked: the packets read before each SUBACK are exactly the last N stored matching messages inside the window (none "
                "without load permission), nothing but live publishes afterwards, live fan-out unchanged, and at the end the store holds exactly the model "
-               "(once each, publisher's channel and contract, requested ttl, retain = configured retention). A concurrency leg has several clients publishing stored messages while further goroutines write to the same store; afterwards every channel's history holds exactly its publisher's messages, once each.",
+               "(once each, publisher's channel and contract, requested ttl, retain = configured retention). A concurrency leg has several clients publishing stored messages while further goroutines write to the same store; afterwards every channel's history holds exactly its publisher's messages, once each. Publishes with keys lacking write permission must be refused and leave nothing behind.",
     level_note="Trusted: paho client codec, barriers, reference matcher, a per-case namespace level so one broker/store serves many cases. Messages of one history "
                "share a wall-clock second, so replay is compared as a multiset. Excluded: will topics with a ttl option and ttl >= 2^32-1 (statement ambiguous / wire type).",
     rule="rapid-generated histories; non-trivial = a subscribe whose expected replay is non-empty and a strict subset of the stored messages; distinct = distinct case value.",
@@ -275,7 +275,7 @@ CHECKS["C08"] = dict(
                "and an oversize length. After the close barrier: the index dump equals the bystanders' entries exactly, the connection counter is back, the will "
                "watcher got the will exactly once iff CONNECT was complete and the will key may publish, the presence watcher got one unsubscribe per "
                "subscription still held (and the subscribe/unsubscribe notifications of the processed requests in order, with the username), bystanders got "
-               "exactly the victim's processed publishes, and a later publish reaches the bystander once. A second enumeration leg injects write faults: the victim's whole request stream is readable but the broker's k-th write to it fails (from then on, or only once), for every k of the fault-free run; sessions contain blocks of filters whose ssids share the per-connection counter hash (two-, three- and four-way).",
+               "exactly the victim's processed publishes, and a later publish reaches the bystander once. A second enumeration leg injects write faults: the victim's whole request stream is readable but the broker's k-th write to it fails (from then on, or only once), for every k of the fault-free run; sessions contain blocks of filters whose ssids share the per-connection counter hash (two-, three- and four-way). Victim sessions also hold $share filters and duplicate subscribes inside the colliding-filter blocks.",
     level_note="Trusted: paho codec, the close signal of the wrapped pipe (Conn.Close ends with socket.Close), the presence-queue sentinel barrier, waiting for the "
                "acknowledgement of every complete packet before ending (so the processed prefix is known). Process kill / internal panics outside the decoder "
                "are not injected.",
@@ -295,7 +295,7 @@ CHECKS["C18"] = dict(
                "a/b/, x/. After every operation both a permanent watcher and the toggling watcher must have received exactly the expected notifications "
                "(one subscribe per new subscription on or below a watched channel, one unsubscribe when it ends, per-connection order, usernames, none after "
                "cancel), and every status response must list exactly the connections the reference matcher says would receive a publish, with usernames. "
-               "A second leg saturates the 100-slot presence queue behind a non-reading watcher and checks that order is preserved. The channel alphabet contains two- and three-way groups of channels whose ssids share the per-connection counter hash. Status requests are also made over HTTP (POST /presence), with the channel given without its trailing slash, and with a key that lacks the presence permission (refused).",
+               "A second leg saturates the 100-slot presence queue behind a non-reading watcher and checks that order is preserved. The channel alphabet contains two- and three-way groups of channels whose ssids share the per-connection counter hash. Status requests are also made over HTTP (POST /presence), with the channel given without its trailing slash, and with a key that lacks the presence permission (refused). A further leg cancels a watch while notifications for it wait behind a sender stuck on another watcher: nothing may reach the cancelled watcher afterwards; channel names include the reserved words presence/ and emitter/.",
     level_note="Trusted: paho codec, ids learned from emitter/me, the sentinel barrier through the presence queue (single FIFO goroutine) observed by a permanent "
                "watcher - which makes 'none after cancel' conclusive. Cluster survey answers no peers.",
     rule="rapid-generated histories; non-trivial = >=2 transitions, a connection going away and the toggling watcher notified at least once; distinct = distinct case value.",
@@ -331,7 +331,7 @@ CHECKS["C09"] = dict(
                "payloads, frames, survey requests and messages handed to OnGossip / OnGossipBroadcast / OnGossipUnicast / OnSurvey / DecodeMessage, benign "
                "(truthful lengths, minimum sizes) and hostile (short keys/values/ids, lying length prefixes, truncation, huge snappy claims, garbage). Oracle per "
                "input: the child neither exits nor hangs, the attacked connection's goroutine terminates when the client goes away, a canary client's subscribe/publish/"
-               "echo/unsubscribe loop still works, TotalAlloc delta <= 4 KiB per input byte + 16 MiB, oversize declarations are refused.",
+               "echo/unsubscribe loop still works, TotalAlloc delta <= 4 KiB per input byte + 16 MiB, oversize declarations are refused. A further leg lets 2-8 well-formed clients (plain, wildcard and $share subscribers) publish at the same moment in the child broker: it must survive and keep serving.",
     level_note="Trusted: the child-worker protocol (unacknowledged input = culprit), RLIMIT_AS 3 GB making out-of-memory observable, hand-rolled encoders of the "
                "kelindar/binary + snappy wire formats. Aborts on the cluster port are matched against the listed findings by the innermost emitter frame; an "
                "abort at an unlisted site, any abort/hang from the client port, or a hostile input that breaks the canary is a violation. Slow-consumer "
@@ -353,7 +353,7 @@ CHECKS["C10"] = dict(
     level_text="Rounds of 2-6 concurrent publishers x 300-1200 messages (QoS 0/1, sizes 8 B..40 KiB) to 1-3 stable subscribers plus 0-2 churning subscribers, "
                "behind the real write-queueing listener connection at flush rates 1 / 60 / 1000 (direct, queued, flush-on-write and timer-flush paths) or a real "
                "gorilla WebSocket through the broker's HTTP handler, with fast and slow (sipping, pausing) readers. Stable subscribers must receive exactly "
-               "0..n-1 per publisher in order; churning subscribers only increasing sequences; every packet well-formed with an intact payload.",
+               "0..n-1 per publisher in order; churning subscribers only increasing sequences; every packet well-formed with an intact payload. Half of the rounds add members of one share group (each message to exactly one member; together they hold every message once); transports include the broker's real front door on a loopback port (multiplexing listener with HTTP matcher and catch-all, write-queueing connection) for MQTT over TCP and over WebSocket.",
     level_note="Weakest claim of the set: interleavings are whatever the Go scheduler yields (sampled, not enumerated, not shrinkable). Trusted: paho decoder, net.Pipe / "
                "loopback sockets. A stable subscriber not completing within 60 s of the publishers finishing is reported as loss.",
     rule="one round = one evaluation; non-trivial = >=2 concurrent publishers; distinct = distinct round parameters (seed included).",
@@ -368,7 +368,7 @@ CHECKS["C15"] = dict(
     level_text="Per generated case 2-5 consecutive lives on one directory, each ending by SIGKILL after 0-150 ms or after 1-300 acknowledgements, by a self-kill "
                "the instant the last Store of a concurrent burst returned, or by a clean Close. After every life a fresh process opens the directory: the store "
                "must open, every message whose Store had returned must come back with identical id, channel, payload and ttl, no message twice while paging, "
-               "and nothing that was never submitted (submitted-but-unacknowledged may go either way).",
+               "and nothing that was never submitted (submitted-but-unacknowledged may go either way). The fresh reader process may store a message before it reads (publish before the first history request after a restart); a life may end by a clean shutdown while the storers keep going (refused stores are not acknowledged, acknowledged ones must be durable).",
     level_note="Process death only (SIGKILL): power loss / fsync behaviour (SyncWrites=false) is not observable in this sandbox and not claimed. Trusted: the "
                "TRY/ACK line protocol over a pipe (an ACK line is written only after Store returned).",
     rule="one generated case = 2-5 kill/restart cycles; non-trivial = a life ended by a kill with >=1 acknowledged store and stores in flight (or a self-kill right after "
@@ -387,7 +387,7 @@ CHECKS["C05"] = dict(
                "for every broker and channel the remote subscribers in its index must equal the brokers with a live matching local subscriber; a QoS-1 probe "
                "publish must reach every matching client cluster-wide once, with exactly one forwarded frame per other broker that has a subscriber and none to "
                "the others. Classes A and A' are asserted strictly, as are 'a full-state exchange with nothing in flight changes nothing' and 'no route to a "
-               "garbage-collected peer is left'; other failures in B, C, D must match a listed finding. Class J adds a broker that joins late (first full-state exchange carries several subscriptions and tombstones at once); a first-contact leg delivers the first two updates about an unknown broker over two links concurrently.",
+               "garbage-collected peer is left'; other failures in B, C, D must match a listed finding. Class J adds a broker that joins late (first full-state exchange carries several subscriptions and tombstones at once); a first-contact leg delivers the first two updates about an unknown broker over two links concurrently. Class L breaks a link between two brokers that stay reachable through the others (no garbage collection; what was queued on the link is lost) and requires routing to be right after one anti-entropy round; generators include a 1 100-character channel, immediate unsubscribe+subscribe of a held channel and bursts of one client on one channel.",
     level_note="Trusted: the transcription of mesh's gossipSender and gossipChannel relay logic (vkit/gsender.go, vkit/simnet.go, ~250 lines; full-mesh and line "
                "topologies), which replaces the real mesh router, TCP and topology gossip; crdt.Now is a harness counter. 'Once quiesced' is checked, not "
                "'eventually quiesces'. Outside A/A' the implementation is known to violate the property (listed findings), so there the check separates "
